@@ -431,7 +431,8 @@ def run(rep: vlib.Reporter, tier: str, seed: int) -> None:
     def is_rej(c: dict) -> Optional[bool]:
         if c["exc"] is None:
             return False
-        return True if c["exc"].startswith("ValueError: Link ") else None
+        # LinkValidator runs first in Engine.__init__: any other exception comes from later planning stages
+        return c["exc"].startswith("ValueError: Link ")
     bad, info = vlib.run_cases("C18", "e2e_validate", REQ, "chk_validate",
                                [f"({cq_list(cq_link(l) for l in c['links'])}, {'None' if is_rej(c) is None else 'Some ' + cq_bool(bool(is_rej(c)))})" for c in ec],
                                extra_defs=EXTRA, case_type="list link * option bool")
